@@ -54,8 +54,9 @@ pub open spec fn s_height(t: STree) -> nat decreases t {
         STree::Hyb(_, _, _, c) => s_height(*c) + 1,
     }
 }
-// ---- Display tables (trusted model of the four `impl fmt::Display` in operator_enums.rs; the table is
-//      checked against the real `to_string()` by the display harness, see DESIGN 3.3 item 3)
+// ---- Display tables, written from the statement of C06 (operator spellings, constants as True/False).  The four `impl fmt::Display`
+//      of operator_enums.rs and the one of HctlTreeNode are PROVED to write exactly these texts (unit tree, contracts display_*,
+//      spec/display.rs); what stays trusted is std's definition of `to_string()` / `{x}` in format! as the text Display::fmt writes.
 pub open spec fn disp_unary(op: UnaryOp) -> Seq<char> {
     match op { UnaryOp::Not => "~"@, UnaryOp::EX => "EX"@, UnaryOp::AX => "AX"@, UnaryOp::EF => "EF"@, UnaryOp::AF => "AF"@, UnaryOp::EG => "EG"@, UnaryOp::AG => "AG"@ }
 }
